@@ -1,7 +1,8 @@
-(* C09 property theorems (model level). The correspondence harness for C09 is NOT built yet (see props/C09/NOTES.md):
-   these theorems are about the model only and no check is registered for C09. *)
-From Coq Require Import ZArith List Bool Permutation.
-From OG Require Import C09.Model C09.Proofs.
+(* C09 property theorems. Models: Model.v (segments, statistics monoid), ChunkModel.v (chunks, first/last reader, memtable
+   statistics builders), BucketModel.v (time buckets, tag groups). The correspondence (props/C09/run.py, harness/cmd/c09)
+   runs these models against the real shard on every check. *)
+From Coq Require Import ZArith List Bool Lia Permutation.
+From OG Require Import C09.Model C09.Proofs C09.ListSpec C09.ChunkModel C09.ChunkProofs C09.BucketModel C09.BucketProofs.
 Import ListNotations.
 Open Scope Z_scope.
 
@@ -67,3 +68,114 @@ Example C09_example :
   /\ cnt (agg_short 2 8 [s1; s2] mem) = 4 /\ smax (agg_short 2 8 [s1; s2] mem) = Some (7, 5)
   /\ slast (agg_short 2 8 [s1; s2] mem) = Some (1, 8).
 Proof. vm_compute. repeat split. Qed.
+
+(* ================= independent list specifications (ListSpec.v) ================= *)
+(* min / max / first / last of build_stats meet specifications that only talk about the list of non-null (value, time)
+   pairs - min/max: extreme value, EARLIEST time among the rows carrying it; first/last: extreme time, GREATER value among
+   rows of that time - for every row list, in any order *)
+Theorem C09_min_spec : forall rows, spec_min rows (smin (build_stats rows)).
+Proof. exact build_stats_min_spec. Qed.
+Theorem C09_max_spec : forall rows, spec_max rows (smax (build_stats rows)).
+Proof. exact build_stats_max_spec. Qed.
+Theorem C09_first_spec : forall rows, spec_first rows (sfirst (build_stats rows)).
+Proof. exact build_stats_first_spec. Qed.
+Theorem C09_last_spec : forall rows, spec_last rows (slast (build_stats rows)).
+Proof. exact build_stats_last_spec. Qed.
+Print Assumptions C09_last_spec.
+(* all six components at once, and the specification determines the statistics uniquely *)
+Theorem C09_build_stats_meets_spec : forall rows, spec_all rows (build_stats rows).
+Proof. exact build_stats_spec_all. Qed.
+Theorem C09_spec_determines_stats : forall rows a b, spec_all rows a -> spec_all rows b -> a = b.
+Proof. exact spec_all_unique. Qed.
+(* combining two partial results that meet the specification of their rows meets the specification of all the rows:
+   the tie rules of combine (segments, files, memtable, series of one tag group) are those of the specification *)
+Theorem C09_combine_meets_spec : forall a b sa sb, spec_all a sa -> spec_all b sb -> spec_all (a ++ b) (combine sa sb).
+Proof. exact combine_spec_all. Qed.
+Print Assumptions C09_combine_meets_spec.
+(* on time-ordered rows first / last are the first / last non-null row *)
+Theorem C09_first_last_time_ordered : forall rows, asc rows ->
+  sfirst (build_stats rows) = first_nonnull rows /\ slast (build_stats rows) = last_nonnull rows.
+Proof. exact first_last_time_ordered. Qed.
+Example C09_spec_example :   (* two rows carry the minimum 3: the earlier time is reported; nulls are ignored *)
+  spec_min [(5, Some 3); (1, None); (2, Some 3); (9, Some 4)] (Some (3, 2)) /\
+  smin (build_stats [(5, Some 3); (1, None); (2, Some 3); (9, Some 4)]) = Some (3, 2).
+Proof. split; [| reflexivity]. cbn. split; [auto |]. intros v' t' [E | [E | [E | []]]]; inversion E; subst; lia. Qed.
+
+(* ================= chunks, the first/last reader, the memtable builders (ChunkModel.v) ================= *)
+(* count / sum / min / max of one chunk: the chunk-level statistics when the whole chunk is inside the range, else a scan
+   of the overlapping segments - both are the statistics of the chunk's rows in range, for every segment layout and
+   range position *)
+Theorem C09_chunk_agg : forall lo hi c, wf_chunk c -> chunk_agg lo hi c = build_stats (filter (in_range lo hi) (chunk_rows c)).
+Proof. exact chunk_agg_spec. Qed.
+(* the repaired FirstLastReader (stored min/max shortcut, null-free segment shortcut with the SEGMENT's time, row search):
+   reader result = first / last over the chunk's rows in range, value AND time *)
+Theorem C09_first_reader_repaired : forall use_pre lo hi c, wf_chunk c ->
+  first_reader_repaired use_pre lo hi c = sfirst (build_stats (filter (in_range lo hi) (chunk_rows c))).
+Proof. exact first_reader_repaired_spec. Qed.
+Theorem C09_last_reader_repaired : forall use_pre lo hi c, wf_chunk c ->
+  last_reader_repaired use_pre lo hi c = slast (build_stats (filter (in_range lo hi) (chunk_rows c))).
+Proof. exact last_reader_repaired_spec. Qed.
+Print Assumptions C09_last_reader_repaired.
+Theorem C09_chunk_partial : forall use_pre lo hi c, wf_chunk c ->
+  chunk_partial_repaired use_pre lo hi c = build_stats (filter (in_range lo hi) (chunk_rows c)).
+Proof. exact chunk_partial_repaired_spec. Qed.
+(* the repaired memtable builders (time of the last non-null value) compute the statistics of the memtable rows *)
+Theorem C09_mem_stats_repaired : forall rows, asc rows -> mem_stats_repaired rows = build_stats rows.
+Proof. exact mem_stats_repaired_spec. Qed.
+Print Assumptions C09_mem_stats_repaired.
+(* the whole shortcut - any number of chunks (ordered / out-of-order files, any segment layout), memtable, any range:
+   if the plain select returns exactly the stored rows in range, the shortcut is the aggregate over the selected rows *)
+Theorem C09_equiv_chunks : forall use_pre lo hi chunks mem selected, Forall wf_chunk chunks -> asc mem ->
+  Permutation (filter (in_range lo hi) (all_chunk_rows chunks mem)) selected ->
+  agg_chunks_repaired use_pre lo hi chunks mem = agg_rows selected.
+Proof. exact equiv_chunks. Qed.
+Print Assumptions C09_equiv_chunks.
+Theorem C09_equiv_chunks_meets_spec : forall use_pre lo hi chunks mem selected, Forall wf_chunk chunks -> asc mem ->
+  Permutation (filter (in_range lo hi) (all_chunk_rows chunks mem)) selected ->
+  spec_all selected (agg_chunks_repaired use_pre lo hi chunks mem).
+Proof. exact equiv_chunks_spec. Qed.
+(* non-vacuity: the layout of corpus/C09/01 (9 rows, segments of 8 + 1, memtable row at t=20), range 19..23 *)
+Example C09_chunk_example :
+  let c := mk_chunk [[(0, Some 0); (2, Some 2); (4, Some 4); (6, Some 6); (8, Some 8); (9, Some 9); (13, Some 13); (18, Some 18)]; [(23, Some 23)]] in
+  wf_chunk c /\ sfirst (agg_chunks_repaired true 19 23 [c] [(20, Some 99)]) = Some (99, 20)
+  /\ first_reader_repaired true 19 23 c = Some (23, 23) /\ first_reader_current true 19 23 c = Some (23, 0)
+  /\ last_reader_repaired true 0 20 c = Some (18, 18) /\ last_reader_current true 0 20 c = Some (18, 23).
+Proof.
+  cbn zeta. split; [| vm_compute; repeat split].
+  apply mk_chunk_wf; [repeat constructor; discriminate | apply ascb_asc; reflexivity].
+Qed.
+
+(* ================= time buckets and tag groups (BucketModel.v) ================= *)
+(* per (tag group, time bucket): whichever eligible segments are answered from their statistics (wholly inside range and
+   bucket) and whichever row by row, the result is the aggregate over the rows the plain select returns for that group in
+   that bucket *)
+Theorem C09_bucket_equiv : forall use lo hi w ss g b selected, 0 < w -> Forall wf_series ss ->
+  Permutation (filter (in_rb lo hi w b) (group_rows ss g)) selected ->
+  agg_group_bucket use lo hi w ss g b = agg_rows selected.
+Proof. exact bucket_equiv. Qed.
+Print Assumptions C09_bucket_equiv.
+(* per tag group without a bucket (several series per group, each with its own files / memtable) *)
+Theorem C09_group_equiv : forall lo hi ss g selected, Forall wf_series ss ->
+  Permutation (filter (in_range lo hi) (group_rows ss g)) selected ->
+  agg_group_short lo hi ss g = agg_rows selected.
+Proof. exact group_equiv. Qed.
+(* the buckets of the range partition the rows in range: combining all buckets loses and double counts nothing *)
+Theorem C09_bucket_partition : forall lo hi w rows, 0 < w ->
+  build_stats (filter (in_range lo hi) rows) =
+  fold_stats (map (fun b => build_stats (filter (in_rb lo hi w b) rows)) (buckets lo hi w)).
+Proof. exact bucket_partition. Qed.
+Theorem C09_bucket_table_total : forall use lo hi w ss g, 0 < w -> Forall wf_series ss ->
+  fold_stats (map snd (bucket_table use lo hi w ss g false)) = agg_group_short lo hi ss g.
+Proof. exact bucket_table_total. Qed.
+Print Assumptions C09_bucket_table_total.
+(* descending order: the same value per bucket, the table reversed; row order inside a bucket is irrelevant *)
+Theorem C09_descending : forall use lo hi w ss g,
+  bucket_table use lo hi w ss g true = rev (bucket_table use lo hi w ss g false).
+Proof. exact bucket_table_desc. Qed.
+Example C09_bucket_example :   (* two series in group 7, one in group 8; buckets of width 5 over 0..12; segment [5..8] lies in bucket 1 *)
+  let s1 := {| g_key := 7; g_segs := [mk_segment [(1, Some 4); (3, Some 1)]; mk_segment [(5, Some 2); (8, Some 6)]]; g_mem := [(11, Some 9)] |} in
+  let s2 := {| g_key := 7; g_segs := [mk_segment [(4, Some 5); (6, None)]]; g_mem := [] |} in
+  let s3 := {| g_key := 8; g_segs := []; g_mem := [(2, Some 100)] |} in
+  map (fun x => (fst x, cnt (snd x), smax (snd x))) (bucket_table (fun _ => true) 0 12 5 [s1; s2; s3] 7 false)
+  = [(0, 3, Some (5, 4)); (1, 2, Some (6, 8)); (2, 1, Some (9, 11))].
+Proof. vm_compute. reflexivity. Qed.
